@@ -20,7 +20,8 @@
 
 /* ---- restart: mirrors user_main.c supla_system_restart (no board hooks) */
 static ETSTimer restart_delay_timer;
-void supla_system_restart(void) {
+/* (weak: drv_boot links the real user_main.c, whose own definitions take over) */
+__attribute__((weak)) void supla_system_restart(void) {
   if (supla_esp_cfgmode_started() == 0) {
     supla_esp_save_state(0);
     os_delay_us(500);
@@ -32,7 +33,7 @@ void supla_system_restart(void) {
   exit(0);
 }
 static void restart_cb(void *p) { supla_system_restart(); }
-void supla_system_restart_with_delay(uint32 delay_ms) {
+__attribute__((weak)) void supla_system_restart_with_delay(uint32 delay_ms) {
   os_timer_disarm(&restart_delay_timer);
   os_timer_setfn(&restart_delay_timer, (os_timer_func_t *)restart_cb, NULL);
   os_timer_arm(&restart_delay_timer, delay_ms, 0);
